@@ -186,6 +186,12 @@ func doHistory(full string, ops []string) string {
 			case "R":
 				csproto.Reset(m)
 				return "ok"
+			case "KS":
+				// clone and go on with the SOURCE: Clone must leave it as it was
+				if c := csproto.Clone(m); c == nil {
+					return "driver-error clone returned nil"
+				}
+				return "ok"
 			case "K":
 				c := csproto.Clone(m)
 				if c == nil {
